@@ -21,6 +21,31 @@ type RepeatDestroy struct {
 
 // PlanRepeatDestroy plans the two deployments (same block, consecutive nonces of owner).
 func (w *World) PlanRepeatDestroy(owner *Acct, beneficiary common.Address, v *big.Int) *RepeatDestroy {
+	return w.planDestroyPair(owner, beneficiary, v, func(vault common.Address) []ExtCall {
+		return []ExtCall{
+			{Kind: CALL, To: vault, Value: v},        // pay
+			{Kind: CALL, To: vault},                  // destroy #1
+			{Kind: CALL, To: vault, Value: v},        // pay again (account is marked self-destructed)
+			{Kind: CALL, To: vault},                  // destroy #2: balance must be cleared again
+			{Kind: CALL, To: vault, Data: []byte{1}}, // forward what is left (must be nothing)
+		}
+	})
+}
+
+// PlanDestroyThenPay is the same pair with a shorter script: pay the vault, destroy it, pay it AGAIN and stop. The
+// vault is deleted at the end of the transaction together with what it received after its SELFDESTRUCT (go-ethereum
+// semantics): nothing may stay behind at its address. Fire() runs it (value = 2 x v).
+func (w *World) PlanDestroyThenPay(owner *Acct, beneficiary common.Address, v *big.Int) *RepeatDestroy {
+	return w.planDestroyPair(owner, beneficiary, v, func(vault common.Address) []ExtCall {
+		return []ExtCall{
+			{Kind: CALL, To: vault, Value: v}, // pay
+			{Kind: CALL, To: vault},           // destroy
+			{Kind: CALL, To: vault, Value: v}, // pay again: the account is marked self-destructed and still receives
+		}
+	})
+}
+
+func (w *World) planDestroyPair(owner *Acct, beneficiary common.Address, v *big.Int, script func(vault common.Address) []ExtCall) *RepeatDestroy {
 	nonce := w.NextNonce(owner.Addr)
 	vault := NewAsm().Op(vm.CALLVALUE).JumpI("keep").Op(vm.CALLDATASIZE).JumpI("fwd").PushAddr(beneficiary).Op(vm.SELFDESTRUCT).
 		Label("keep").Op(vm.STOP).
@@ -29,13 +54,7 @@ func (w *World) PlanRepeatDestroy(owner *Acct, beneficiary common.Address, v *bi
 	sc.Vault = crypto.CreateAddress(owner.Addr, nonce)
 	sc.Orch = crypto.CreateAddress(owner.Addr, nonce+1)
 	orch := &Node{}
-	for _, st := range []ExtCall{
-		{Kind: CALL, To: sc.Vault, Value: v},               // pay
-		{Kind: CALL, To: sc.Vault},                          // destroy #1
-		{Kind: CALL, To: sc.Vault, Value: v},               // pay again (account is marked self-destructed)
-		{Kind: CALL, To: sc.Vault},                          // destroy #2: balance must be cleared again
-		{Kind: CALL, To: sc.Vault, Data: []byte{1}},        // forward what is left (must be nothing)
-	} {
+	for _, st := range script(sc.Vault) {
 		st := st
 		st.StoreOK = -1
 		orch.Steps = append(orch.Steps, Step{Ext: &st})
